@@ -6,12 +6,13 @@ tier = sys.argv[1] if len(sys.argv) > 1 else "quick"
 OV = [("zzverif", "zzverif"), ("circuit", "circuit"), ("circuit_c17", "circuit")]
 def H(name, pre, desc): return Harness(name, "./circuit", OV, flags=["-preempt", str(pre)], expect_reach=["end"], replay=False, desc=desc)
 conc = ("goroutines start on one FRESH shared *Circuit (lazy pool creation under contention); each does Garble -> Eval of its own garbling -> Compute -> Release -> Release, "
-        "with the scheduler free to preempt BEFORE AND AFTER every synchronisation operation (atomic Load/CompareAndSwap of the pool pointer, sync.Pool Get/Put) up to the stated budget; "
+        "with the scheduler free to preempt BEFORE AND AFTER every synchronisation operation (atomic Load/CompareAndSwap of the pool pointer, sync.Pool Get/Put) and at the hand-over points "
+        "between Garble, Eval and Release, up to the stated budget; "
         "assertions: no call fails or panics, every garbling evaluates to the plain result, exactly one pool is installed; ")
 hs = [H("verifC17History", 0, "sequential reuse history on one circuit with sync.Pool.Get free to return ANY released scratch or a new one: two live garblings never share buffers, a garbling stays "
-        "valid across another garbling's release and reuse, Release twice is harmless (the scratch is not handed out twice), all 8 inputs"),
-      H("verifC17Conc2", 3 if tier == "quick" else 4, conc + "2 goroutines, all 8 inputs, preemption budget %d" % (3 if tier == "quick" else 4)),
-      H("verifC17Conc2x2", 2 if tier == "quick" else 3, conc + "2 goroutines x 2 rounds each (released scratch is reused by the other goroutine), preemption budget %d" % (2 if tier == "quick" else 3))]
+        "valid across another garbling's release and reuse, Release twice - back to back and again after the scratch may have been reused - is harmless (the scratch is not handed out twice), all 8 inputs"),
+      H("verifC17Conc2", 2 if tier == "quick" else 3, conc + "2 goroutines, all 8 inputs, preemption budget %d" % (2 if tier == "quick" else 3)),
+      H("verifC17Conc2x2", 1 if tier == "quick" else 2, conc + "2 goroutines x 2 rounds each (released scratch is reused by the other goroutine), preemption budget %d" % (1 if tier == "quick" else 2))]
 if tier != "quick":
     hs.append(H("verifC17Conc3", 2, conc + "3 goroutines, preemption budget 2"))
 sys.exit(run_property(
